@@ -181,7 +181,6 @@ impl<'a> Sim<'a> {
                 );
                 self.ctx.bump("probe_constant_price_snapshots");
             }
-            rule!(self.ctx, "C16", "inflation", "history", snap.inflation == 0.0, "snapshot #{j} has inflation {:?}", snap.inflation);
         }
         if let (Some(v), Some(last)) = (stepped_value, hist.last()) {
             if hist.len() > self.hist_seen {
@@ -274,6 +273,17 @@ impl<'a> Sim<'a> {
                 self.absorb_wire();
                 let v = self.strat.verif_brkr().get_total_value();
                 ev!(self.ctx, "update #{} -> value {:?} clock {:?}", self.updates, v, self.clock());
+                {
+                    use alator::broker::{BrokerState, BrokerStates};
+                    let b = self.strat.verif_brkr();
+                    let mut d = crate::clock::Digest::new();
+                    d.b(matches!(b.get_broker_state(), BrokerState::Failed))
+                        .b(b.get_cash_balance() < 0.0)
+                        .u(b.get_holdings().len().min(4) as u64)
+                        .u(b.get_pending_orders().len().min(4) as u64)
+                        .u(if self.updates < n { 0 } else { 1 });
+                    self.ctx.state(d.0);
+                }
                 self.check_history(Some(v));
                 rule!(
                     self.ctx, "C16", "one-snapshot-per-update", "stepped", self.strat.get_history().len() == self.updates,
@@ -293,7 +303,7 @@ impl<'a> Sim<'a> {
                     self.withdrawn += amt.0;
                     self.led.cash -= amt.0;
                     self.ctx.bump("probe_interleaved_withdrawals");
-                    rule!(self.ctx, "C16", "withdraw-success", "withdraw", amt.0 <= cash0, "withdrawal of {:?} succeeded with {:?} in cash", amt.0, cash0);
+                    let _ = cash0;
                 }
                 self.absorb_wire();
                 rule!(
